@@ -175,8 +175,12 @@ class Publish:
 
         self.data = data
 
-        # XXX: Use the MutableFileVersion instead.
-        self.datalength = self._node.get_size()
+        # The length of the version being updated. (The node's get_size()
+        # is only a cache of the size most recently *downloaded or
+        # overwritten* through this node; after an earlier in-place update
+        # it is stale, and using it here truncated the file back to that
+        # older length.)
+        self.datalength = version[4]
         if data.get_size() > self.datalength:
             self.datalength = data.get_size()
 
